@@ -103,6 +103,24 @@ def run_digitize(case, ctx):
                 continue
             ctx.hit("asan.digitize" if asan else "digitize." + direction)
             exp = numpy.digitize(x, bins, right=True)
+            if kind == "regular" and n <= 12:
+                # integer-valued edges given as an integer array, queried with integer and float32 points
+                ib = (numpy.arange(n) * 3 - 5).astype(numpy.int64)
+                if direction == "descending":
+                    ib = ib[::-1].copy()
+                ix = numpy.arange(ib.min() - 2, ib.max() + 3).astype(numpy.int64)
+                for qname, q in (("int64", ix), ("float32", ix.astype(numpy.float32)), ("float64", ix.astype(float))):
+                    try:
+                        ti = digitize2tree(ib, right=True)
+                        pi = ti.predict(q.reshape(-1, 1))
+                        ctx.hit("digitize.integer_containers")
+                        ei = numpy.digitize(q, ib, right=True)
+                        if not numpy.array_equal(pi, ei):
+                            ctx.violation(K + "differs-from-numpy/integer-bins/%s" % qname,
+                                          "integer bins %r, %s points: tree %r, numpy %r" % (
+                                              ib[:4].tolist(), qname, pi[:6].tolist(), ei[:6].tolist()), cfg=cfg)
+                    except Exception as e:
+                        ctx.violation(K + "raised/%s/integer-bins" % type(e).__name__, str(e)[:150], cfg=cfg)
             if pred.shape != exp.shape or not numpy.array_equal(pred, exp):
                 bad = numpy.where(pred != exp)[0]
                 j = int(bad[0])
